@@ -942,7 +942,7 @@ def _closing_steps(rng, m):
     return out
 
 
-def gen_history(rng, v, nsteps, prof):
+def gen_history(rng, v, nsteps, prof, max_total=None):
     m = TextModel(v)
     hist, labels = [], []
     nbuild = max(2, int(nsteps * rng.choice([0.3, 0.4, 0.5])))
@@ -965,6 +965,8 @@ def gen_history(rng, v, nsteps, prof):
         m.apply(step)
     if rng.chance(prof["close"]):
         for t in _closing_steps(rng, m):
+            if max_total is not None and len(hist) >= max_total:
+                break
             hist.append(["add", t]); labels.append("add:%s:closing" % t[0])
     return hist, labels
 
@@ -978,10 +980,40 @@ def gen_case(rng, tier, prof, p_unknown=0.0, vlevels=(1,)):
         prof["ops"] = dict(prof["ops"])
         prof["fails"] = dict(prof["fails"], malformed=0, **{"empty-line": 0})
     maxs = 25 if tier == "quick" else 60
-    nsteps = rng.randint(4, maxs) if rng.chance(0.5) else rng.randint(4, 14)
-    hist, labels = gen_history(rng, flavour, nsteps, prof)
+    nsteps = rng.randint(4, maxs - 5) if rng.chance(0.5) else rng.randint(4, 14)
+    hist, labels = gen_history(rng, flavour, nsteps, prof, max_total=maxs)
     version = None if rng.chance(p_unknown) else flavour
     return {"version": version, "flavour": flavour, "vlevel": vlevel, "hist": hist, "labels": labels}
+
+
+# ------------------------------------------------------------------------------------------------
+# exhaustive short histories over a 7-step alphabet per version (used by c02 / c05)
+# ------------------------------------------------------------------------------------------------
+EX_ALPHABET = {
+    "gfa1": [["add", "S\tA\t*"], ["add", "S\tB\t*"], ["add", "L\tA\t+\tB\t+\t*"], ["add", "L\tA\t+\tB\t-\t*"],
+             ["add", "P\tp1\tA+,B+\t*"], ["rm", "A"], ["rename", "A", "Z"]],
+    "gfa2": [["add", "S\tA\t10\t*"], ["add", "E\te1\tA+\tB+\t5\t10$\t0\t5\t*"], ["add", "G\tg1\tA+\tB-\t5\t*"],
+             ["add", "O\to1\tA+ e1+"], ["add", "U\tu1\tA g1 o1"], ["rm", "A"], ["rm", "e1"]],
+}
+
+
+def ex_count(maxlen):
+    return 2 * sum(7 ** k for k in range(1, maxlen + 1))
+
+
+def ex_case(i, maxlen):
+    per = ex_count(maxlen) // 2
+    v = "gfa1" if i < per else "gfa2"
+    j = i % per
+    n = 1
+    while j >= 7 ** n:
+        j -= 7 ** n
+        n += 1
+    digits = []
+    for _ in range(n):
+        digits.append(j % 7); j //= 7
+    hist = [list(EX_ALPHABET[v][d]) for d in reversed(digits)]
+    return {"version": v, "flavour": v, "vlevel": 1, "hist": hist, "labels": ["ex:" + s[0] for s in hist]}
 
 
 # ------------------------------------------------------------------------------------------------
@@ -1071,6 +1103,8 @@ def case_tags(case):
         parts = lab.split(":")
         if parts[0] == "fail":
             t.add("fail:" + parts[1])
+        elif parts[0] == "ex":
+            t.add("exhaustive")
         elif parts[0] == "add":
             t.add("add:" + parts[1])
             for p in parts[2:]:
